@@ -2,10 +2,12 @@
    Proved at line level: a cut at an event boundary loads exactly the complete events before it; a cut right
    after an event header, a cut that ends in (any prefix of) a particle line or of the format line, a lost
    particle line and a duplicated particle line all fail to load.  NOT proved here (covered by the exhaustive
-   byte-offset correspondence only): cuts inside an event-header / footer comment line, and the JETSCAPE family -
+   byte-offset correspondence only): cuts inside an event-header / footer comment line (Oscar) and inside the trailer after
+   the word sigmaGen (JETSCAPE) -
    hence the name C07_trunc_partial_* for the truncation theorems. *)
 From Coq Require Import List String ZArith QArith Bool Arith.
-From SX Require Import Lib.Strs Gen.GenParticleMap Model.Oscar Model.OscarDoc Proofs.C01_Oscar Proofs.C07_Oscar.
+From SX Require Import Lib.Strs Gen.GenParticleMap Model.Oscar Model.OscarDoc Model.Jetscape Model.JetscapeDoc Proofs.C01_Oscar
+  Proofs.C07_Oscar Proofs.C07_Jetscape.
 Import ListNotations.
 Local Open Scope string_scope.
 
@@ -77,3 +79,36 @@ Theorem C07_wf_is_declared :
   lwf_events tok_float tok_int pdg_valid fmt attrs i (map (fun e => List.length (e_rows e)) evs) evs.
 Proof. exact wf_lwf. Qed.
 Print Assumptions C07_wf_is_declared.
+
+(* JETSCAPE: any file (any selection, any constructor filter) whose last line does not contain "sigmaGen" is rejected;
+   every truncation that stops before that word of the trailer leaves such a last line *)
+Theorem C07_jetscape_trunc_partial_no_trailer :
+  forall tok_float tok_int pdg_valid pdg_charge usqrt flt (file : list line) defstr sel,
+  has "sigmaGen" (last file []) = false ->
+  jload tok_float tok_int pdg_valid pdg_charge usqrt flt file defstr sel = Err ValueError.
+Proof. exact jet_last_line_without_sigmaGen. Qed.
+Print Assumptions C07_jetscape_trunc_partial_no_trailer.
+
+(* JETSCAPE, a particle line lost anywhere (fewer lines than the event headers declare): IndexError *)
+Theorem C07_jetscape_lost_line :
+  forall tok_float tok_int pdg_valid pdg_charge usqrt defstr h0 e0 evs trailer dc ds,
+  is_count_line defstr h0 = false ->
+  jl_events tok_float tok_int pdg_valid pdg_charge usqrt defstr 0 (dc :: ds) (e0 :: evs) ->
+  is_trailer trailer = true -> is_count_line defstr trailer = false ->
+  (S (List.length (je_rows e0)) + List.length (jrender_events evs) < jtotal (dc :: ds))%nat ->
+  jload tok_float tok_int pdg_valid pdg_charge usqrt None (h0 :: jrender_events (e0 :: evs) ++ [trailer])%list defstr SelAll
+  = Err IndexError.
+Proof. exact jet_lost_line. Qed.
+Print Assumptions C07_jetscape_lost_line.
+
+(* JETSCAPE, a particle line duplicated anywhere (one line more than declared): IndexError *)
+Theorem C07_jetscape_duplicated_line :
+  forall tok_float tok_int pdg_valid pdg_charge usqrt defstr h0 e0 evs trailer dc ds,
+  is_count_line defstr h0 = false ->
+  jl_events tok_float tok_int pdg_valid pdg_charge usqrt defstr 0 (dc :: ds) (e0 :: evs) ->
+  is_trailer trailer = true -> is_count_line defstr trailer = false ->
+  (S (List.length (je_rows e0)) + List.length (jrender_events evs) = S (jtotal (dc :: ds)))%nat ->
+  jload tok_float tok_int pdg_valid pdg_charge usqrt None (h0 :: jrender_events (e0 :: evs) ++ [trailer])%list defstr SelAll
+  = Err IndexError.
+Proof. exact jet_extra_line. Qed.
+Print Assumptions C07_jetscape_duplicated_line.
